@@ -111,6 +111,8 @@ static UriBool URI_FUNC(LowercaseMalloc)(const URI_CHAR ** first,
 
 static void URI_FUNC(PreventLeakage)(URI_TYPE(Uri) * uri,
 		unsigned int revertMask, UriMemoryManager * memory);
+static UriBool URI_FUNC(KeepPathKind)(URI_TYPE(Uri) * uri,
+		UriBool relative, UriMemoryManager * memory);
 
 
 
@@ -183,6 +185,55 @@ static URI_INLINE void URI_FUNC(PreventLeakage)(URI_TYPE(Uri) * uri,
 		uri->fragment.first = NULL;
 		uri->fragment.afterLast = NULL;
 	}
+}
+
+
+
+/* After dot segments have been removed from an owned path without host:
+ * puts a single "." segment in front where the remaining path would otherwise
+ * change its kind when written out, i.e. read back as a scheme ("b:c" from
+ * "a/../b:c"), as an authority ("//b" from "/.//b")
+ * or as an absolute path ("/b" from ".//b"). */
+static URI_INLINE UriBool URI_FUNC(KeepPathKind)(URI_TYPE(Uri) * uri,
+		UriBool relative, UriMemoryManager * memory) {
+	URI_TYPE(PathSegment) * const head = uri->pathHead;
+	UriBool needDot = URI_FALSE;
+
+	if ((head == NULL) || URI_FUNC(IsHostSet)(uri)) {
+		return URI_TRUE;
+	}
+
+	if (head->text.first == head->text.afterLast) {
+		needDot = (head->next != NULL) ? URI_TRUE : URI_FALSE;
+	} else if (relative) {
+		const URI_CHAR * ch = head->text.first;
+		for (; ch < head->text.afterLast; ch++) {
+			if (*ch == _UT(':')) {
+				needDot = URI_TRUE;
+				break;
+			}
+		}
+	}
+
+	if (needDot) {
+		URI_TYPE(PathSegment) * const segment = memory->malloc(memory, sizeof(URI_TYPE(PathSegment)));
+		URI_CHAR * dot;
+		if (segment == NULL) {
+			return URI_FALSE; /* Raises malloc error */
+		}
+		dot = memory->malloc(memory, 1 * sizeof(URI_CHAR));
+		if (dot == NULL) {
+			memory->free(memory, segment);
+			return URI_FALSE; /* Raises malloc error */
+		}
+		dot[0] = _UT('.');
+		segment->text.first = dot;
+		segment->text.afterLast = dot + 1;
+		segment->next = head;
+		segment->reserved = NULL;
+		uri->pathHead = segment;
+	}
+	return URI_TRUE;
 }
 
 
@@ -733,6 +784,10 @@ static URI_INLINE int URI_FUNC(NormalizeSyntaxEngine)(URI_TYPE(Uri) * uri,
 				(uri->owner == URI_TRUE)
 				|| ((doneMask & URI_NORMALIZE_PATH) != 0),
 				memory)) {
+			URI_FUNC(PreventLeakage)(uri, doneMask, memory);
+			return URI_ERROR_MALLOC;
+		}
+		if (!URI_FUNC(KeepPathKind)(uri, relative, memory)) {
 			URI_FUNC(PreventLeakage)(uri, doneMask, memory);
 			return URI_ERROR_MALLOC;
 		}
